@@ -63,11 +63,16 @@ def project : List α → List α → List α
 
 end generic
 
+/-- The step-count rule of `crr_tree_val`: `num_steps = num_steps_per_year`, made odd when `isEven = 0` and even when
+`isEven = 1` (proved equal to the GENERATED rule `Gen.CrrLoopR.crr_steps` in `Props/C12e.lean`). -/
+def crrSteps (numSteps : Nat) (isEven : Int) : Nat :=
+  if numSteps % 2 == 0 && isEven == 0 then numSteps + 1
+  else if numSteps % 2 == 1 && isEven == 1 then numSteps + 1 else numSteps
+
 /-- `crr_tree_val(...)[0]` at `Float`: step count rule (`num_steps = num_steps_per_year`, parity forced by
 `isEven`), `dt`, `u = exp(σ√dt)`, `d = 1/u`, `p = (e^{(r−q)dt} − d)/(u − d)`, `df = e^{−r dt}`. -/
 def crrTreeVal (s r q vol : Float) (numSteps : Nat) (t : Float) (optType : Int) (k : Float) (isEven : Int) : Float :=
-  let n := if numSteps % 2 == 0 && isEven == 0 then numSteps + 1
-           else if numSteps % 2 == 1 && isEven == 1 then numSteps + 1 else numSteps
+  let n := crrSteps numSteps isEven
   let dt := t / n.toFloat
   let u := Float.exp (vol * Float.sqrt dt)
   let d := 1.0 / u
